@@ -259,7 +259,7 @@ func (pm *pathManager) doReloadConf(newPaths map[string]*conf.Path) {
 			oldPathConf := pm.pathConfs[pa.confName]
 			if pathConfCanBeUpdated(oldPathConf, newPathConf) {
 				pa.confName = newPathConf.Name
-				go pa.reloadConf(newPathConf)
+				pa.reloadConf(newPathConf)
 				continue
 			}
 
@@ -276,7 +276,7 @@ func (pm *pathManager) doReloadConf(newPaths map[string]*conf.Path) {
 
 		// path configuration has changed but can be hot reloaded: reload it
 		if _, ok := confsToReload[newPathConf.Name]; ok {
-			go pa.reloadConf(newPathConf)
+			pa.reloadConf(newPathConf)
 		}
 	}
 
